@@ -12,6 +12,11 @@
 (* header edits make live views stale.  Variant = "orig" models the code before the fixes      *)
 (* F7 (HeaderSet.remove compares the lowered item with the unlowered argument) and F13         *)
 (* (assigning .type / .token stores a parameter); it must violate the invariants.              *)
+(* Whole-property assignment of a caller-constructed object whose reference is kept in a slot:  *)
+(* www_authenticate = instance binds the instance (live view; Variant = "nobind" models a        *)
+(* setter that loses the binding and must violate the contract); an assigned list of instances   *)
+(* and an assigned HeaderSet are only serialised (the kept reference is a detached copy: mutating *)
+(* it must leave the header alone).                                                              *)
 (* `act` labels the last step; it is kept out of the state identity with VIEW.                 *)
 EXTENDS HeaderViews, TLC, Json
 
@@ -39,7 +44,8 @@ Tab == <<97, 32, 98>>
 Ttok == <<97, 98, 99, 49, 50, 51>>
 T3 == <<51>>
 
-Dead == [live |-> FALSE, impl |-> <<>>, cv |-> <<>>]
+\* bound: the object's on_update writes the header (implementation); cb: the contract says it is a live view
+Dead == [live |-> FALSE, impl |-> <<>>, cv |-> <<>>, bound |-> FALSE, cb |-> FALSE]
 
 \* ------------------------------------------------------------------ universes
 Items == IF Big THEN {TCookie, Tcookie, TCOOKIE, TAccept} ELSE {TCookie, Tcookie, TAccept}
@@ -115,7 +121,7 @@ Init == /\ hdr = None /\ hv = EmptyValue
 
 GetView(i) ==
   LET v == IF hdr = None THEN EmptyValue ELSE hv IN
-  /\ views' = [views EXCEPT ![i] = [live |-> TRUE, impl |-> ImplOf(v), cv |-> v]]
+  /\ views' = [views EXCEPT ![i] = [live |-> TRUE, impl |-> ImplOf(v), cv |-> v, bound |-> TRUE, cb |-> TRUE]]
   /\ UNCHANGED <<hdr, hv>>
   /\ act' = [k |-> K, op |-> "get_view", vw |-> i, hdr |-> hdr, exc |-> ""]
 
@@ -123,10 +129,11 @@ Mutate(i, o) ==
   /\ views[i].live
   /\ LET r == ImplStep(o, views[i].impl)
          c == ModelApply(o, views[i].cv)
-         h == IF r.notify THEN Notify(r.impl) ELSE hdr
-     IN /\ views' = [views EXCEPT ![i] = [live |-> TRUE, impl |-> r.impl, cv |-> c.v]]
+         wr == r.notify /\ views[i].bound
+         h == IF wr THEN Notify(r.impl) ELSE hdr
+     IN /\ views' = [views EXCEPT ![i] = [@ EXCEPT !.impl = r.impl, !.cv = c.v]]
         /\ hdr' = h
-        /\ hv' = IF r.notify THEN NF(K, Proj(r.impl)) ELSE hv
+        /\ hv' = IF wr THEN NF(K, Proj(r.impl)) ELSE hv
         /\ act' = o @@ [k |-> K, vw |-> i, hdr |-> h, exc |-> r.exc, cexc |-> c.exc]
 
 DirectEdit(e) ==
@@ -135,14 +142,31 @@ DirectEdit(e) ==
   /\ UNCHANGED views
   /\ act' = [k |-> K, op |-> "direct_edit", vw |-> 0, y |-> hdr', hdr |-> hdr', exc |-> ""]
 
+\* response.<property> = object, the caller keeps the reference in slot i
+AssignVals == CASE K = "set" -> {<<TCookie, TAccept>>}
+                [] K = "wa" -> {[ty |-> Tbasic, tok |-> None, ps |-> <<[k |-> Trealm, v |-> Some(Tx)]>>]}
+                               \cup (IF Big THEN {[ty |-> Tbearer, tok |-> Some(Ttok), ps |-> <<>>]} ELSE {})
+                [] OTHER -> {}
+AssignObj(i, v, tag) ==
+  LET binds == K = "wa" /\ tag = "value" IN
+  /\ hdr' = Written(K, v, None)
+  /\ hv' = NF(K, v)
+  /\ views' = [views EXCEPT ![i] = [live |-> TRUE, impl |-> ImplOf(v), cv |-> v, bound |-> binds /\ Variant # "nobind", cb |-> binds]]
+  /\ act' = [k |-> K, op |-> "assign", tag |-> tag, vw |-> i, hdr |-> hdr', exc |-> ""]
+             @@ (IF K = "wa" THEN [w |-> v] ELSE [xs |-> v])
+
+AssignSlots == IF Big THEN Slots ELSE {2}
 Next == \/ \E i \in Slots : GetView(i)
+        \/ \E i \in AssignSlots, v \in AssignVals : AssignObj(i, v, IF K = "wa" THEN "value" ELSE "list")
+        \/ \E i \in AssignSlots, v \in AssignVals : K = "wa" /\ AssignObj(i, v, "list")
         \/ \E i \in Slots, o \in Ops : Mutate(i, o)
         \/ \E e \in Edits : DirectEdit(e)
 
 \* ------------------------------------------------------------------ the contract, as action properties
 \* (TLC evaluates an action property on every transition, also on those leading to known states, so
 \* the bookkeeping variable `act` can stay outside the state identity: VIEW View in every config)
-IsMutation == act'.op \notin {"init", "get_view", "direct_edit"}
+IsMutation == act'.op \notin {"init", "get_view", "direct_edit", "assign"}
+Live == IsMutation /\ views[act'.vw].cb
 \* the view's own reads equal the documented model
 AViewValue == IsMutation => Proj(views'[act'.vw].impl) = views'[act'.vw].cv
 AOpOutcome == IsMutation => act'.exc = act'.cexc
@@ -150,14 +174,15 @@ AOpOutcome == IsMutation => act'.exc = act'.cexc
 \* (a step that does not change the view's value may leave the header alone)
 AHeaderEqualsView ==
   IsMutation => LET cv == views'[act'.vw].cv w == Written(K, cv, None) IN
-                IF act'.cexc # "" THEN hdr' = hdr
+                IF ~views[act'.vw].cb THEN hdr' = hdr           \* detached copy: not a view of the header
+                ELSE IF act'.cexc # "" THEN hdr' = hdr
                 ELSE IF cv # views[act'.vw].cv THEN hdr' = w
                 ELSE hdr' \in {hdr, w}
 \* a freshly read view equals the last writer's value in normal form
 ARereadEqualsView ==
-  (IsMutation /\ hdr' = Written(K, views'[act'.vw].cv, None) /\ (K = "wa" => WARoundTrips(views'[act'.vw].cv)))
+  (Live /\ hdr' = Written(K, views'[act'.vw].cv, None) /\ (K = "wa" => WARoundTrips(views'[act'.vw].cv)))
      => (IF hdr' = None THEN EmptyValue ELSE hv') = NF(K, views'[act'.vw].cv)
-AHeaderIffNonEmpty == (K \in {"set", "cc"} /\ IsMutation /\ act'.cexc = "" /\ views'[act'.vw].cv # views[act'.vw].cv)
+AHeaderIffNonEmpty == (K \in {"set", "cc"} /\ Live /\ act'.cexc = "" /\ views'[act'.vw].cv # views[act'.vw].cv)
                          => ((hdr' = None) <=> (views'[act'.vw].cv = <<>>))
 ViewValue == [][AViewValue]_vars
 OpOutcome == [][AOpOutcome]_vars
@@ -169,7 +194,7 @@ ReadsAgree == K = "set" => \A i \in Slots : views[i].live => views[i].impl.ls = 
 
 \* ------------------------------------------------------------------ export (spec -> code)
 View == <<hdr, hv, views>>
-St == [hdr |-> hdr, hv |-> hv, views |-> [i \in Slots |-> [live |-> views[i].live, cv |-> views[i].cv]]]
-StP == [hdr |-> hdr', hv |-> hv', views |-> [i \in Slots |-> [live |-> views'[i].live, cv |-> views'[i].cv]]]
+St == [hdr |-> hdr, hv |-> hv, views |-> [i \in Slots |-> [live |-> views[i].live, cv |-> views[i].cv, cb |-> views[i].cb]]]
+StP == [hdr |-> hdr', hv |-> hv', views |-> [i \in Slots |-> [live |-> views'[i].live, cv |-> views'[i].cv, cb |-> views'[i].cb]]]
 Export == PrintT(ToJson([pre |-> St, act |-> act', post |-> StP, init |-> (hdr = None /\ \A i \in Slots : ~views[i].live)]))
 =============================================================================
